@@ -391,13 +391,17 @@ def run(prog: Program, chk: Check):
         pn = [n for n in g5.nodes if any(c is cnode for c in node_calls(n))]
         heads = {n.id for n in g5.nodes if n.kind == "for"}
         sn = {n.id for n in g5.nodes if any(is_method_call(c, "send_message") and path_of(recv_of(c)) != "self" for c in node_calls(n))}
-        norm_edge = lambda e: e.kind not in ("exc", "except") and e.src not in heads
-        after_send = flow.reach(g5, [e.dst for s_ in sn for e in g5.succ[s_] if e.kind not in ("exc", "except")], follow=norm_edge)
-        before_send = set()
-        for p_ in pn:
-            if flow.reach(g5, [e.dst for e in g5.succ[p_.id] if e.kind not in ("exc", "except")], follow=norm_edge) & sn:
-                before_send.add(p_.id)
-        sends_here = any(p_.id in after_send or p_.id in before_send for p_ in pn)
+        inside_loop = {n.id for n in g5.nodes if n.ast is not None and n.kind != "for" and any(any(a is lp for a in _anc5(n.ast)) for lp in loops5)}
+        # one iteration at a time: normal edges only, and no way back to a loop head from inside its loop
+        norm_edge = lambda e: e.kind not in ("exc", "except") and not (e.dst in heads and e.src in inside_loop)
+        # (path facts with ghost marks, so that a flag decided in the drop branch - `deliver = False` ... `if deliver:` - does
+        # not count as a way from the notice to the write)
+        pids = {p_.id for p_ in pn}
+        gm_a = flow.guard_states(g5, edge_filter=norm_edge, marks=lambda e: "@sent" if e.src in sn and e.kind not in ("exc", "except") else None)
+        after_send_hit = any(any(norm(f_) == "@sent" for f_, _ in st_) for p_ in pn for st_ in gm_a.at(p_))
+        gm_b = flow.guard_states(g5, edge_filter=norm_edge, marks=lambda e: "@published" if e.src in pids and e.kind not in ("exc", "except") else None)
+        before_send_hit = any(any(norm(f_) == "@published" for f_, _ in st_) for s_ in sn for st_ in gm_b.at(g5.nodes[s_]))
+        sends_here = after_send_hit or before_send_hit
         Q.decide(in_handler or not sends_here, fkey(fwd, f"publish:{norm(cnode)[:50]}"), where(fwd, cnode), "publication belongs to failure handling (handler / drop branch)",
                  f"forward_message: `{norm(cnode)[:70]}` publishes" + (" (log record -> manager logger -> forward_message)" if "emit" in (desc or "") else "")
                  + " on the success path of the recipient loop: recipients served before and after this one receive the two messages in different orders")
